@@ -3,6 +3,7 @@ from ..canon import Canon, show, subtrees
 from ..extract import AnalysisBroken
 from ..facts import src
 from ..rules.skeleton import Interp
+from ..rules import whomay
 from ..util import switch_table, find_switches, is_assign
 
 EXPLANATION = (
@@ -69,6 +70,59 @@ def size_table(fn, sw):
     return out
 
 
+def value_size_table(P, fn, depth=0):
+    """{physical type: byte size} of the table a function uses for cursor arithmetic, however it is
+    spelled: (a) a dedicated size function (a physical-type parameter, integer result) is executed
+    abstractly once per enum value; (b) a switch over the type, also when it sits in a static helper
+    (helper-expanded view); (c) a call to a dedicated size function of the same file."""
+    from ..rules import sem
+    tpar = [i for i, p_ in enumerate(fn.params) if "physical_type" in p_["t"]]
+    if tpar and "*" not in (fn.ret or "") and (fn.ret or "") not in ("void", "bool", "_Bool") and len(fn.params) <= 3:
+        tab = {}
+        for name, val in P.enum("carquet_physical_type").items():
+            args = []
+            for i, p_ in enumerate(fn.params):
+                if i == tpar[0]:
+                    args.append(val)
+                elif "len" in p_["n"]:
+                    args.append(7777)
+                else:
+                    args.append(0)
+            try:
+                ret, ev, _ = sem.run(P, fn, args)
+            except sem.Inconclusive:
+                tab = None
+                break
+            if isinstance(ret, int):
+                tab[name] = "type_length" if ret == 7777 else ret
+        if tab:
+            # an unknown type value gives the default row
+            try:
+                ret, _, _ = sem.run(P, fn, [99 if i == tpar[0] else (7777 if "len" in p_["n"] else 0) for i, p_ in enumerate(fn.params)])
+                if isinstance(ret, int):
+                    tab["default"] = ret
+            except sem.Inconclusive:
+                pass
+            return tab
+    v = P.inlined(fn, 2)
+    best = None
+    for s in find_switches(v):
+        if "type" not in src(s.c[-2]) or "page_header" in src(s.c[-2]):
+            continue
+        t = size_table(v, s)
+        if len(t) >= 5 and (best is None or len(t) > len(best)):
+            best = t
+    if best is not None or depth > 0:
+        return best
+    for c in fn.calls():
+        for g in P.by_name.get(c.callee or "", []):
+            if g.file == fn.file and any("physical_type" in p_["t"] for p_ in g.params):
+                t = value_size_table(P, g, depth + 1)
+                if t:
+                    return t
+    return None
+
+
 def _size_expr(cz, e):
     if e.cv is not None:
         return e.cv
@@ -93,14 +147,9 @@ def run(ctx):
                                ("carquet_column_skip", CR, "cursor"), ("get_type_size", BR, "cursor"),
                                ("carquet_read_dictionary_page", PR, "fixed"), ("get_value_size", MS, "fixed")):
         fn = P.fn(fname, file_)
-        sws = [s for s in find_switches(fn) if "type" in src(s.c[-2]) and "page_header" not in src(s.c[-2])]
-        best = None
-        for s in sws:
-            t = size_table(fn, s)
-            if len(t) >= 5 and (best is None or len(t) > len(best)):
-                best = t
+        best = value_size_table(P, fn)
         if best is None:
-            raise AnalysisBroken("%s:%s: type->size switch not found" % (file_, fname))
+            raise AnalysisBroken("%s:%s: type->size table not found" % (file_, fname))
         tables.append((fn, kind, best))
     ref_fn, _, ref = tables[0]
     for fn, kind, tab in tables:
@@ -132,7 +181,7 @@ def run(ctx):
             t = tgt.strip()
             if t.k == "MemberExpr" and t.get("rec") == "carquet_column_reader" and t.name in CURSOR:
                 nw += 1
-                ok = t.name in WRITERS.get(fn.name, ())
+                ok = whomay.allowed(P, fn, lambda g, fld=t.name: fld in WRITERS.get(g.name, ()))
                 ctx.ob("R7.who-may-write", "cursor-writer|%s:%s|%s" % (P.rel(fn.file), fn.name, t.name),
                        P.where(n), "cursor field %s is written only by the page reader and its frozen "
                        "co-writers" % t.name, ok, "written in %s: %s" % (fn.name, src(n)[:80]))
